@@ -2580,6 +2580,13 @@ _cdata_getslicearg(CDataObject *cd, PySliceObject *slice, Py_ssize_t bounds[])
                      ct->ct_name);
         return NULL;
     }
+    else if (CDataOwn_Check(cd) && (start < 0 || stop > 1)) {
+        /* like x[i]: an owning pointer owns the single item at index 0 */
+        PyErr_Format(PyExc_IndexError,
+                     "cdata '%s' can only be sliced within [0:1]",
+                     ct->ct_name);
+        return NULL;
+    }
 
     bounds[0] = start;
     bounds[1] = stop - start;
